@@ -139,6 +139,37 @@ def values_matrix(rng, m, n=None, kind='general'):
     return u @ S @ v.T
 
 
+def _numeric(A):
+    def num(x):
+        if isinstance(x, pe.CObs):
+            return complex(float(x.real.value), float(x.imag.value))
+        return complex(x.value) if isinstance(x, pe.Obs) else complex(x)
+    return np.array([[num(x) for x in row] for row in A])
+
+
+def sprinkle(rng, A, cplx):
+    """replace one or two entries - the first one of the matrix half of the time - by a plain float, a plain Python int, (complex matrices) a plain
+    complex number or a real observable; the matrix stays well-conditioned"""
+    m = A.shape[0]
+    for k in range(int(rng.integers(1, 3))):
+        a, b = (0, 0) if k == 0 and rng.random() < 0.5 else (int(rng.integers(0, m)), int(rng.integers(0, m)))
+        z = _numeric(A)[a, b]
+        kind = str(rng.choice(['float', 'int', 'complex', 'realobs'] if cplx else ['float', 'int']))
+        if kind == 'realobs':
+            new = A[a, b].real if isinstance(A[a, b], pe.CObs) else A[a, b]
+        elif kind == 'complex':
+            new = complex(round(z.real, 2), round(z.imag, 2))
+        elif kind == 'int':
+            new = int(round(z.real)) or 1
+        else:
+            new = float(round(z.real, 2))
+        B = A.copy()
+        B[a, b] = new
+        if np.linalg.cond(_numeric(B)) < 1e3:
+            A[a, b] = new
+    return A
+
+
 def obs_matrix(rng, pool, vals, plain_frac=0.0, symmetric=False, common_lists=False, force_split=False):
     m, n = vals.shape
     M = np.empty((m, n), dtype=object)
@@ -235,7 +266,11 @@ def cases_for(rng, n, ctx):
             res = {'k': 'exc', 't': type(r).__name__} if isinstance(r, Exception) else {'k': 'ok', 'm': pcm(r, pool)}
             cases.append({'id': cid + ['', '-realfactor', '-plainentries'][mixed], 'ev': 'matmul', 'complex': True, 'ops': [pcm(x, pool) for x in mats], 'res': res})
         elif op == 'inv':
-            A = obs_matrix(rng, pool, values_matrix(rng, m), plain_frac=0.0, force_split=(i // len(ops)) % 2 == 0)
+            mixed = (i // len(ops)) % 2 == 1 and (i // len(ops)) % 4 == 1
+            A = obs_matrix(rng, pool, values_matrix(rng, m), plain_frac=1e-12 if mixed else 0.0, force_split=(i // len(ops)) % 2 == 0)
+            if mixed:
+                A = sprinkle(rng, A, False)            # plain numbers (floats and Python ints) anywhere, the first entry included
+                cid += '-plainentries'
             r = framed([A], lambda: pe.linalg.inv(A))
             res = {'k': 'exc', 't': type(r).__name__} if isinstance(r, Exception) else {'k': 'ok', 'm': pm(r, pool)}
             cases.append({'id': cid, 'ev': 'inv', 'complex': False, 'a': pm(A, pool), 'res': res})
@@ -243,6 +278,9 @@ def cases_for(rng, n, ctx):
             m = min(m, 3)
             vr = values_matrix(rng, m)
             A = cobs_matrix(rng, pool, vr, 0.3 * values_matrix(rng, m))
+            if (i // len(ops)) % 2 == 1:
+                A = sprinkle(rng, A, True)             # a complex matrix may hold real observables and plain numbers - anywhere
+                cid += '-mixedentries'
             r = framed([A], lambda: pe.linalg.inv(A))
             res = {'k': 'exc', 't': type(r).__name__} if isinstance(r, Exception) else {'k': 'ok', 'm': pcm(r, pool)}
             cases.append({'id': cid, 'ev': 'inv', 'complex': True, 'a': pcm(A, pool), 'res': res})
